@@ -12,6 +12,7 @@
 import KiraModel.Proofs.EffectsBProbe
 import KiraModel.Proofs.EffectsBReverb
 import KiraModel.Proofs.EffectsBLines
+import KiraModel.Proofs.EffectsBLinear
 
 namespace K
 open Delay LineFx
@@ -92,6 +93,35 @@ theorem C13_delay_chunk_free (C : FxChain ℝ φ) (d : Delay ℝ φ) (xs ys : Li
   have happ := framesC_append C (asAmplitude d.feedback.raw) (clamp d.mix.raw 0 1) dt info (d.buffer, d.fx) xs ys
   simp only [after, perFrame, Parameter.settle_settle, Parameter.settle_raw] at happ ⊢
   rw [happ]
+
+/-- **superposition (delay with a linear feedback chain).**  `fadd` adds signals frame by frame,
+    `Delay.plus` adds the lines and the feedback-effect states of two delays that share configuration and
+    parameters (`SameControls`).  For *any* parameter states (tweening included — the coefficients do not
+    depend on the signal), any line length and any slicing: if the runs on `x1` and on `x2` succeed, the
+    run of the summed delay on `x1 + x2` succeeds, outputs the sum of the outputs and ends in the sum of
+    the final states.  (The three runs fault together: faults depend on lengths only.) -/
+theorem C13_delay_linear (C : FxChain ℝ φ) (dt : ℝ) (info : Info ℝ)
+    (padd : φ → φ → φ) (psmul : ℝ → φ → φ) (hC : C.Linear dt info padd psmul)
+    (d1 d2 : Delay ℝ φ) (hsame : SameControls d1 d2) (x1 x2 : List (Frame ℝ)) (hx : x1.length = x2.length)
+    (d1' d2' : Delay ℝ φ) (o1 o2 : List (Frame ℝ))
+    (h1 : d1.process C x1 dt info = .ok (d1', o1)) (h2 : d2.process C x2 dt info = .ok (d2', o2)) :
+    (Delay.plus padd d1 d2).process C (fadd x1 x2) dt info = .ok (Delay.plus padd d1' d2', fadd o1 o2)
+      ∧ SameControls d1' d2' :=
+  Delay.process_add C dt info padd psmul hC d1 d2 hsame x1 x2 hx d1' d2' o1 o2 h1 h2
+
+/-- **scaling (delay with a linear feedback chain).**  Scaling the line, the feedback-effect state and the
+    input by `c` scales the output and the final state by `c`, for any parameter states. -/
+theorem C13_delay_homogeneous (C : FxChain ℝ φ) (dt : ℝ) (info : Info ℝ)
+    (padd : φ → φ → φ) (psmul : ℝ → φ → φ) (hC : C.Linear dt info padd psmul) (c : ℝ)
+    (d : Delay ℝ φ) (x : List (Frame ℝ)) (d' : Delay ℝ φ) (o : List (Frame ℝ))
+    (h : d.process C x dt info = .ok (d', o)) :
+    (Delay.times psmul c d).process C (fsmul c x) dt info = .ok (Delay.times psmul c d', fsmul c o) :=
+  Delay.process_smul C dt info padd psmul hC c d x d' o h
+
+/-- non-vacuity: the suite's probe effect with zero offset (gain `g`, one-pole feedback `f`) is a linear
+    chain (its state — the previous output — adds and scales) -/
+example (g f dt : ℝ) (info : Info ℝ) :
+    (ProbeFx.onePole g f).Linear dt info Frame.add (fun c p => p.scale c) := ProbeFx.onePole_linear g f dt info
 
 /-! ### non-vacuity (delay): the probe effects nested by the correspondence suite form a good, silent chain,
     and a freshly initialised one-second delay at 48 kHz meets the hypotheses above -/
